@@ -5,33 +5,45 @@ import vf
 SPEC = dict(
     level="proof",
     harness=dict(pkg_dir="gitindex", run="TestVerifC13$", files=["gitindex/zz_verif_c13_test.go"],
-                 n_quick=int(os.environ.get("VERIF_C13_N", "120")), n_thorough=int(os.environ.get("VERIF_C13_N", "2000")),
+                 n_quick=int(os.environ.get("VERIF_C13_N", "120")), n_thorough=int(os.environ.get("VERIF_C13_N", "1500")),
                  # a build allocates >= 4 tables of 16 MiB; the harness collects after every build, and with MADV_FREE the
                  # freed pages stay resident instead of being faulted in again (page faults dominated the run time)
                  env={"GODEBUG": "madvdontneed=0"}),
     runner=dict(imports=["From ZV Require Import Lib.Base Model.Delta Model.DeltaDecide."], case_type="c13case",
                 mismatch_fn="c13_mismatches", shard=100),
-    rule="generated histories over 1-3 branches (+ HEAD indexed as an alias of main in 25%): a REAL bare git repository "
-         "(git init + git fast-import, one commit per changed branch and step), 2-6 steps of 0-3 edits each (add, modify, "
-         "delete, rename, revert a branch to an earlier tree, copy a file from another branch, sync a branch to another "
-         "branch's tree, move a file between branches, swap two files, modify one path on every branch, submodule entries "
-         "(gitlinks) added / replacing a file / replaced by a file; small content pool so "
-         "the same blob sits on several branches/paths), each step followed by gitindex.IndexGitRepo full or delta (75% "
-         "delta; first run sometimes delta = fallback); 30% of the histories with a tiny ShardMax (several shards per build). "
-         "After EVERY run: per branch Search(branch:<b>, Whole) vs `git ls-tree -r` (Go oracle) and the stack of layers (raw "
-         "documents with branch sets read without sidecar + FileTombstones) vs the model. Case = one history; non-trivial = "
-         ">= 1 delta run and >= 1 edit class.",
+    rule="generated histories over 1-3 git branches; the list of indexed branches (Options.Branches: a subset in some order, "
+         "+ HEAD in front as an alias of main in 25%) CHANGES between runs in 14% of the steps (branch added / dropped / order "
+         "changed / HEAD alias on-off), the index options that enter Options.GetHash change in 8% (4 variants that do not "
+         "change what is indexed), ShardMax changes in 8% (not hashed: no fallback), 20% of the histories set "
+         "DeltaShardNumberFallbackThreshold 1-3. All histories of a chunk of 50 live in ONE real bare git repository: every "
+         "commit of every step is written by a single `git fast-import`, git's own listing of every commit is read back by a "
+         "single `git fast-export --all --full-tree --no-data` (ground truth of the oracle), a step points refs/heads/* at its "
+         "commits. 2-6 steps of 0-3 edits each (add, modify, delete, rename, revert a branch to an earlier tree, copy a file "
+         "from another branch, sync a branch to another branch's tree, move a file between branches, swap two files, modify "
+         "one path on every branch, submodule entries (gitlinks) added / replacing a file / replaced by a file; small content "
+         "pool so the same blob sits on several branches/paths), each step followed by gitindex.IndexGitRepo full or delta "
+         "(75% delta requested; first run sometimes delta = fallback); 30% of the histories with a tiny ShardMax (several "
+         "shards per build); an orphan .meta planted before 15% of the runs; 30% of the histories have `.sourcegraph/ignore` (\"dir/\") "
+         "on some but not all branches (files under dir/ exist on every branch, half of the add/modify edits go there; the "
+         "ignore file appears/disappears by edits and branch syncs = fallback). After EVERY run: per indexed branch "
+         "Search(branch:<b>, Whole) vs git's listing of the branch's commit, branches that are not indexed must find nothing "
+         "(Go oracle); which kind of build happened (every old shard kept = delta build, all replaced = normal build) vs the "
+         "model's decision; the stack of layers (raw documents with branch sets read without sidecar + FileTombstones) vs the "
+         "model. Case = one history; non-trivial = >= 1 delta build actually happened and >= 1 edit/request class.",
     trusted_base=["correspondence harness harness/overlay/gitindex/zz_verif_c13_test.go (history generator, numbering of paths/"
-                  "contents, grouping of shards into layers by IndexMetadata.ID, Go oracle by git blob id of the returned content)",
+                  "contents/branch names/option variants, grouping of shards into layers by IndexMetadata.ID, the delta-vs-normal "
+                  "observation by shard file + build id, Go oracle by git blob id of the returned content against "
+                  "`git fast-export --full-tree`, which the harness also cross-checks against the generated trees)",
                   "model abstractions: go-git DiffTree(DetectRenames=false) = set of paths whose blob differs; trees as "
-                  "association lists; documents keyed by (path, blob) with branch sets; a layer = all shards of one build; "
-                  "file modes, symlinks, submodules, .sourcegraph/ignore, branch-set / option changes and the shard-count "
-                  "fallback are outside the model (not generated)",
+                  "association lists; documents keyed by (path, blob) with branch positions; a layer = all shards of one build; "
+                  "the options hash is an opaque number (variants with distinct hashes); 'more shards than the threshold' is an "
+                  "input of the decision (the model has layers, not shards); file modes, symlinks, Options.Submodules, "
+                  ".sourcegraph/ignore and unreadable metadata / missing commits (all fall back or are not generated) are "
+                  "outside the model",
                   "index/eval.go visibility (FileTombstones, branch mask) is modelled by view_layer and exercised through the "
                   "Go oracle's real searches, not proved about the Go code"],
-    assumptions=["the set and order of indexed branches and the index options do not change between runs (otherwise gitindex "
-                 "falls back to a full build, which re-establishes the invariant)",
-                 "every run completes (crashes inside a run are C12)"],
+    assumptions=["every run completes (crashes inside a run are C12)",
+                 "Options.Submodules is off; ignore files only with the pattern dir/ (an ignored file is absent from the model's tree)"],
 )
 
 
